@@ -266,7 +266,7 @@ def observe(t):
         return {"nt": type(t).__name__}
     return {"sub": type(t) is not Table, "name": t.name, "dests": sorted(t.destinations),
             "cols": list(t.column_names), "units": list(t.units),
-            "rows": [[sc(x) for x in row] for row in t.df.itertuples()],
+            "rows": [[sc(x) for x in row] for row in t.df.itertuples(name=None)],
             "transposed": bool(t.metadata.transposed),
             "origin": t.metadata.origin if isinstance(t.metadata.origin, str) else type(t.metadata.origin).__name__}
 
